@@ -43,6 +43,7 @@ type Sched struct {
 	NStep      int
 	OnStep     func(t *Thread)         // called just before t is resumed (scheduler goroutine)
 	Skip       func(point string) bool // hooks that are not scheduling points in this harness (run through)
+	Unfair     bool                    // no fairness bound on polling threads
 	MaxSteps   int                     // 0 = unbounded; Run stops (Aborted) after that many steps: some goroutine spins for ever
 	Aborted    bool
 	StuckAfter time.Duration // 0 = wait for ever; else Run gives up when the resumed goroutine reaches no hook in time
@@ -115,7 +116,7 @@ func (s *Sched) EnabledThreads() []*Thread {
 			en = append(en, t)
 		}
 	}
-	if len(en) > 1 {
+	if len(en) > 1 && !s.Unfair {
 		var en2 []*Thread
 		for _, t := range en {
 			if !(isPoll(t.Point) && t.polls >= 4) {
